@@ -50,7 +50,7 @@ def stage_mc_only(ctx, E, name, module, cfg, workers=16, timeout=3000, extra=Non
 
 
 def stage_record_trace(ctx, E, name, module, cfg, prop=None, drv=None, timeout=3000, rec_args=None, env=None,
-                       heap=None, chunk=None):
+                       heap=None, chunk=None, merge=False, optional=False):
     """I->S: record events from the real code, validate them with the *_Trace spec."""
     prop = prop or ctx.pid
     trace = os.path.join(ctx.work, "trace_%s.ndjson" % name)
@@ -58,11 +58,15 @@ def stage_record_trace(ctx, E, name, module, cfg, prop=None, drv=None, timeout=3
                        env=env)
     n_events = json.loads(out.strip().splitlines()[-1])["events"]
     if n_events == 0:
+        if optional:
+            E.log("%s: nothing recorded (this implementation does not call the verif hooks): stage skipped" % name)
+            ctx.stage_info.append({"stage": "I->S " + name, "skipped": "no verif hook events in this build"})
+            return None, None
         raise E.Machinery("recorder %s produced no events" % name)
-    return validate_trace(ctx, E, name, module, cfg, trace, n_events, timeout=timeout, heap=heap)
+    return validate_trace(ctx, E, name, module, cfg, trace, n_events, timeout=timeout, heap=heap, merge=merge)
 
 
-def validate_trace(ctx, E, name, module, cfg, trace, n_events, timeout=3000, heap=None):
+def validate_trace(ctx, E, name, module, cfg, trace, n_events, timeout=3000, heap=None, merge=False):
     verdicts = os.path.join(ctx.work, "verdicts_%s.ndjson" % name)
     if os.path.exists(verdicts):
         os.remove(verdicts)
@@ -70,7 +74,7 @@ def validate_trace(ctx, E, name, module, cfg, trace, n_events, timeout=3000, hea
                     workers=1, timeout=timeout, heap=heap)
     E.tlc_ok(res, "trace_" + name)
     ctx.add_tlc(res)
-    summ = E.read_verdict_file(verdicts)
+    summ = E.read_verdict_file(verdicts, merge=merge)
     if summ["total"] != n_events:
         raise E.Machinery("trace spec %s judged %d of %d events" % (name, summ["total"], n_events))
     # samples: first events of the trace
@@ -98,7 +102,7 @@ def validate_trace(ctx, E, name, module, cfg, trace, n_events, timeout=3000, hea
             v["first"] = {"verdict": v["first"], "event": lines.get(v["first"]["l"])}
     ctx.absorb_summary("I->S " + name, summ)
     if os.environ.get("VERIF_BINDING") and not summ["bad"]:
-        binding_selftest(ctx, E, name, module, cfg, trace, n_events, timeout, heap)
+        binding_selftest(ctx, E, name, module, cfg, trace, n_events, timeout, heap, merge=merge)
     os.remove(trace)
     return res, summ
 
@@ -134,7 +138,7 @@ def _corrupt(v, rnd):
     return v, False
 
 
-def binding_selftest(ctx, E, name, module, cfg, trace, n_events, timeout, heap):
+def binding_selftest(ctx, E, name, module, cfg, trace, n_events, timeout, heap, merge=False):
     """Binding self-test (VERIF_BINDING=1): corrupt one recorded field in each of up to 12 events of a trace that
     was accepted, re-run the trace spec and count how many corrupted events it now rejects. The result goes into
     the evidence only (a corruption of an informational field may legitimately be accepted)."""
@@ -159,11 +163,32 @@ def binding_selftest(ctx, E, name, module, cfg, trace, n_events, timeout, heap):
     rejected = 0
     if res["rc"] == 0 and os.path.exists(verdicts):
         bad_lines = set()
-        for l in open(verdicts):
-            v = json.loads(l)
-            v = json.loads(v) if isinstance(v, str) else v
-            if v["v"] != "ok":
-                bad_lines.add(v["l"])
+        if merge:
+            # the trace spec infers unlogged state: a corrupted event is rejected if, merged over the branches, it or a
+            # later event of the same run is rejected
+            summ = E.read_verdict_file(verdicts, merge=True)
+            allbad = set()
+            per_l = {}
+            for l in open(verdicts):
+                v = json.loads(l)
+                v = json.loads(v) if isinstance(v, str) else v
+                per_l.setdefault(v["l"], set()).add(v["v"])
+            allbad = {l for l, vs in per_l.items() if "ok" not in vs and "bad" in vs}
+            for i in done:
+                j = i
+                while j <= len(lines):
+                    if j in allbad:
+                        bad_lines.add(i)
+                        break
+                    j += 1
+                    if j <= len(lines) and '"ev": "begin"' in lines[j - 1].replace('":"', '": "'):
+                        break
+        else:
+            for l in open(verdicts):
+                v = json.loads(l)
+                v = json.loads(v) if isinstance(v, str) else v
+                if v["v"] != "ok":
+                    bad_lines.add(v["l"])
         rejected = len(bad_lines & set(done))
     else:
         rejected = len(done)  # TLC itself refused the corrupted trace (type error in a corrupted field)
@@ -265,6 +290,8 @@ def run_C09(ctx, E):
     # design level: every interleaving of goroutines / channel / WaitGroup / collector
     stage_mc_only(ctx, E, "conc", "LigationConc", "LigationConc_%s.cfg" % ctx.tier, timeout=1500)
     if ctx.tier == "thorough":
+        # design alternative named in the code's own comment: a buffered construct channel (capacity 2) keeps every property
+        stage_mc_only(ctx, E, "conc_buffered", "LigationConc", "LigationConc_buffered.cfg", timeout=1500)
         stage_expect_violation(ctx, E, "conc_asbuilt", "LigationConc", "LigationConc_asbuilt.cfg",
                                "Termination (code before fix KF-C09-1: no per-chain junction memory)")
         # the race detector on the real runs
@@ -297,6 +324,35 @@ def run_C09(ctx, E):
                 w.write(json.dumps({"ev": e["ev"], "a": e["a"], "b": e["b"]}) + "\n")
             w.write(json.dumps({"ev": "return", "a": "", "b": "", "result": r.get("result") or []}) + "\n")
             n += len(r["events"]) + 2
+    # S->I directed schedules: random behaviours of LigationConc (TLC -simulate), stepped through the real goroutines
+    # with the hooks as gates
+    nsim = T(ctx, 1500, 40000)
+    _, summ = stage_mc_replay(ctx, E, "sched", "C09_Sched", "C09_Sched_%s.cfg" % ctx.tier, prop="C09D", workers=1,
+                              extra=["-simulate", "num=%d" % nsim, "-depth", "400", "-seed", str(ctx.seed)])
+    E.log("sched: %d of %d behaviours followed step by step by the real goroutines (the rest judged on the outcome only)"
+          % (summ.get("nontrivial", 0), summ["total"]))
+    ctx.stage_info[-1]["schedules_followed_step_by_step"] = summ.get("nontrivial", 0)
+    if ctx.tier == "thorough":   # every pool of <= 2 fragments over 2 junction symbols and their complements
+        _, summ = stage_mc_replay(ctx, E, "sched2", "C09_Sched", "C09_Sched_thorough2.cfg", prop="C09D", workers=1,
+                                  extra=["-simulate", "num=%d" % nsim, "-depth", "400", "-seed", str(ctx.seed + 1)])
+        ctx.stage_info[-1]["schedules_followed_step_by_step"] = summ.get("nontrivial", 0)
+    # I->S at the level of the ACTIONS of LigationConc: free runs of clone.CircularLigate on random small pools, each of
+    # which must be a behaviour of the specification (TLC infers the goroutine of every event)
+    nbad = len(ctx.bad)
+    stage_record_trace(ctx, E, "actions", "LigationConc_Trace", "LigationConc_Trace.cfg", prop="C09A", heap="8g",
+                       merge=True, optional=True)
+    # Verdict policy: the property speaks about results and termination, not about how the goroutines are organised.
+    # A run that is not a behaviour of LigationConc although its result is right (say, candidates tried in another
+    # order) is reported as a NOTE - the design-level model checking then no longer speaks for this code - and only a
+    # property clause evaluated on the run (ResultIsRings, no return) is a violation.
+    hard = [b for b in ctx.bad[nbad:] if "ResultIsRings" in b["detail"] or "did not return" in b["detail"]]
+    soft = [b for b in ctx.bad[nbad:] if b not in hard]
+    for b in soft[:5]:
+        print("NOTE: a recorded run of clone.CircularLigate is not a behaviour of LigationConc.tla: %s" % b["detail"][:300])
+    if soft:
+        ctx.stage_info.append({"stage": "I->S actions (conformance)", "runs_not_explained_by_the_model": len(soft),
+                               "note": "advisory: the design-level results of LigationConc no longer describe this code"})
+    ctx.bad[nbad:] = hard
     if n == 0:
         # the hooks are optional: an implementation without goroutines (or without the verif hook calls) has no
         # synchronisation events to validate; the API-level results were all checked above
@@ -327,6 +383,11 @@ def run_C20(ctx, E):
                            "unbuffered error channel under the documented consumer)")
     stage_expect_violation(ctx, E, "asbuilt", "UniprotStream", "UniprotStream_asbuilt.cfg",
                            "Termination (code before fix KF-C20-1: same error for ever)")
+    # directed schedules: every interleaving of reader hand-outs and consumer receives, driven through the real parser
+    _, summ = stage_mc_replay(ctx, E, "sched", "C20_Sched", "C20_Sched_%s.cfg" % ctx.tier, prop="C20D")
+    E.log("sched: %d of %d schedules followed step by step by the real parser (the rest judged on the outcome only)"
+          % (summ.get("nontrivial", 0), summ["total"]))
+    ctx.stage_info[-1]["schedules_followed_step_by_step"] = summ.get("nontrivial", 0)
     if os.environ.get("C20_SKIP_TRACE") is None: stage_record_trace(ctx, E, "offsets", "C20_Trace", "C20_Trace.cfg", heap="8g")
 
 
